@@ -130,6 +130,44 @@ theorem inv_run (c : BandCfg) (ops : List BandOp) : Inv c (run c.init ops) := by
   | nil => intro b hb; exact hb
   | cons op ops ih => intro b hb; exact ih _ (inv_step c b op hb)
 
+/-- the downlink channel list only grows (AddChannel appends; enabling / disabling touches uplink channels only) -/
+theorem step_down_len (b : BandState) (op : BandOp) : b.down.length ≤ (step b op).down.length := by
+  cases op with
+  | add f mn mx =>
+    simp only [step, BandState.addChannel]
+    split
+    · rename_i b' heq
+      split at heq
+      · cases heq
+      · injection heq with heq; subst heq; simp
+    · exact Nat.le_refl _
+  | disable i =>
+    simp only [step, BandState.setUplinkEnabled]
+    split
+    · rename_i b' heq
+      split at heq
+      · cases heq
+      · injection heq with heq; subst heq; simp
+    · exact Nat.le_refl _
+  | enable i =>
+    simp only [step, BandState.setUplinkEnabled]
+    split
+    · rename_i b' heq
+      split at heq
+      · cases heq
+      · injection heq with heq; subst heq; simp
+    · exact Nat.le_refl _
+
+theorem run_down_len (b : BandState) (ops : List BandOp) : b.down.length ≤ (run b ops).down.length := by
+  induction ops generalizing b with
+  | nil => exact Nat.le_refl _
+  | cons op ops ih => exact Nat.le_trans (step_down_len b op) (ih (step b op))
+
+/-- `idxInt` with an index inside the list does not panic -/
+theorem idxInt_ne_panic {α} (l : List α) (i : Int) (h0 : 0 ≤ i) (h1 : i < (l.length : Int)) : idxInt l i ≠ panic := by
+  obtain ⟨a, ha⟩ := idxInt_ok l i (by omega) (by omega)
+  rw [ha]; intro h; cases h
+
 /-! index sets -/
 
 theorem mem_indicesWhere (l : List Channel) (p : Channel → Bool) (i : Int) :
